@@ -222,11 +222,19 @@ func TestTwoHistories(t *testing.T) {
 			if gen.Chance(t, 1, 2, "hmore") {
 				fam = append(fam, a+"."+b+tail, "{hg}."+a+tail)
 			}
+			victim := gen.Pick(t, fam, "hvictim")
+			if gen.Chance(t, 1, 3, "hpaths") {
+				// a hostname with two paths that share a first byte (an intermediate path node below the host) and one longer
+				// hostname; deleting the longer one leaves the host node with that intermediate path node as its only child
+				h := a + "." + b
+				fam = []string{h + "/ua", h + "/ub", h + "." + gen.Pick(t, []string{d, "{hf}"}, "hext") + tail}
+				victim = fam[2]
+			}
 			for _, p := range fam {
 				pre = append(pre, hist.Op{Kind: "handle", Method: m, Pattern: p})
 			}
 			if gen.Chance(t, 3, 4, "hdrop") {
-				pre = append(pre, hist.Op{Kind: "delete", Method: m, Pattern: gen.Pick(t, fam, "hvictim")})
+				pre = append(pre, hist.Op{Kind: "delete", Method: m, Pattern: victim})
 			}
 		}
 		// one history in twelve (of those without another family) first grows a node beyond 50 children - where the edge
@@ -301,8 +309,15 @@ func TestTwoHistories(t *testing.T) {
 		}
 		// probes: every surviving pattern and some removed ones, each as instantiated, slash-toggled and mutated
 		srcs := append([]string(nil), wide...)
+		methodOf := map[string]string{}
 		for _, k := range scratch.Model.Keys() {
 			srcs = append(srcs, k.P)
+			methodOf[k.P] = k.M
+		}
+		for _, op := range flatten(c.Ops) {
+			if _, ok := methodOf[op.Pattern]; !ok && op.Method != "" {
+				methodOf[op.Pattern] = op.Method // a pattern that was removed again: the method it lived under
+			}
 		}
 		for i := 0; i < 4 && len(pool) > 0; i++ {
 			srcs = append(srcs, gen.Pick(t, pool, "src"))
@@ -319,6 +334,9 @@ func TestTwoHistories(t *testing.T) {
 				host = gen.MutateHost(t, host)
 			}
 			m := gen.Pick(t, append(methods, "OPTIONS"), "method")
+			if own, ok := methodOf[p]; ok && gen.Chance(t, 2, 3, "ownmethod") {
+				m = own // mostly under the method the pattern is or was registered with
+			}
 			toggled := path + "/"
 			if len(path) > 1 && strings.HasSuffix(path, "/") {
 				toggled = path[:len(path)-1]
